@@ -597,6 +597,9 @@ func (u *Universe) Script(logicOpts string, assumptions []*Term, goal *Term, wan
 	}
 	for _, fn := range keys(usedFuncs) {
 		if ax, ok := u.funcAxioms[fn]; ok {
+			if fn == "sconcat" && !usedVarsHas(usedVars, "str!empty") {
+				sb.WriteString("(declare-const str!empty Str)\n")
+			}
 			sb.WriteString(ax)
 		}
 	}
@@ -647,3 +650,5 @@ func substVars(t *Term, m map[string]*Term) *Term {
 	}
 	return &Term{Op: t.Op, Val: t.Val, Args: args, Sort: t.Sort}
 }
+
+func usedVarsHas(m map[string]Sort, k string) bool { _, ok := m[k]; return ok }
